@@ -98,6 +98,8 @@ def handle (t : Array String) : String :=
     let (l, p) := flist t p; let (d, p) := flist t p; let (u, _) := flist t p
     let o := step { variant := v, r, ldu := triples l d u, b0, cden, e_kin, sp := species nl kT q } phi
     pr (o.phi ++ o.nax ++ o.shape.foldr (· ++ ·) [] ++ o.y ++ o.b ++ o.jd)
+  | "chunks" =>
+    " ".intercalate ((Chunks.indices t[1]!.toNat! t[2]!.toNat!).map fun ab => toString ab.1 ++ " " ++ toString ab.2)
   | _ => "bad-op"
 
 partial def loop (h : IO.FS.Stream) (out : IO.FS.Stream) : IO Unit := do
